@@ -38,6 +38,12 @@ pub struct State {
     pub cycles: u32,
     pub ay: Option<(u8, [u8; 16])>,
     pub mouse: Option<bool>,
+    /// SZX: the last instruction before the snapshot set the flags (ZXSTZF_FSET; the Q latch)
+    #[serde(default)]
+    pub f_set: bool,
+    /// the first instruction of the restored program is SCF (its undocumented flags depend on Q)
+    #[serde(default)]
+    pub scf_first: bool,
 }
 
 #[derive(Clone, Debug, Serialize, Deserialize)]
@@ -80,6 +86,9 @@ pub fn ram_of(st: &State) -> Vec<Vec<u8>> {
         ram[pb][off + 1..off + 4].copy_from_slice(&[0x3E, 0x99, 0x3C]);
     } else {
         ram[pb][off..off + CODE.len()].copy_from_slice(&CODE);
+        if st.scf_first {
+            ram[pb][off] = 0x37;
+        }
     }
     if st.regs.im % 3 == 2 {
         let v = ((st.regs.i as u16) << 8) | 0xFF;
@@ -147,7 +156,7 @@ pub fn encode(st: &State, enc: Enc, layout_seed: u64) -> Vec<u8> {
                 cycles: st.cycles,
                 halted: st.halted,
                 ei_last: st.ei_last,
-                f_set: false,
+                f_set: st.f_set,
                 border: st.border,
                 latch: if is128 { st.latch } else { 0 },
                 // last byte written to port 0xFE: its low bits need not repeat the border field
@@ -351,14 +360,19 @@ pub fn check(c: &Case, rec: &mut Rec) -> Result<(), String> {
         let mut m = RefMachine::new(mem_model(st));
         let mut regs = want_regs.clone();
         regs.pc = st.regs.pc;
-        set_ref(&mut m.cpu, &CpuState { regs, memptr: st.memptr, q_is_f: false, halted: false, no_int: szx_enc && st.ei_last });
+        set_ref(&mut m.cpu, &CpuState { regs, memptr: st.memptr, q_is_f: szx_enc && st.f_set, halted: false, no_int: szx_enc && st.ei_last });
         let t0 = if szx_enc { st.cycles as u64 } else { machine.frame_len() as u64 - 40 };
         if !szx_enc {
             e.verif_set_frame_clocks(t0 as usize);
         }
         m.bus.t = t0;
         let tb = crate::e2::TimeBase::new(&e, machine);
-        e.verif_cpu().regs.clear_q();
+        if !szx_enc {
+            // SNA does not carry the Q latch
+            e.verif_cpu().regs.clear_q();
+        } else if st.scf_first {
+            rec.class(if st.f_set { "szx:FSET-then-SCF" } else { "szx:no-FSET-then-SCF" });
+        }
         let v = ((st.regs.i as u16) << 8) | 0xFF;
         let skip = st.regs.im % 3 == 2 && (v < 0x4000 || v.wrapping_add(1) < 0x4000);
         for k in 0..if skip { 0 } else { 12 } {
@@ -678,7 +692,7 @@ fn encode_with_idle_flags(st: &State, enc: Enc, ay_flags: u8) -> Vec<u8> {
         cycles: s.cycles,
         halted: false,
         ei_last: false,
-        f_set: false,
+        f_set: s.f_set,
         border: s.border,
         latch: if is128 { s.latch } else { 0 },
         fe: (s.ram_seed >> 24) as u8 & 0x1F,
@@ -718,6 +732,8 @@ pub fn check_equiv(c: &EqCase, rec: &mut Rec) -> Result<(), String> {
     st.memptr = 0;
     st.ay = None;
     st.mouse = None;
+    // SNA has no Q latch: only states with Q = 0 are describable by all four encodings
+    st.f_set = false;
     let machine = st.machine;
     let mut hashes: Vec<(String, u64)> = Vec::new();
     for enc in [Enc::Sna, Enc::SzxStored, Enc::SzxZlib, Enc::SzxFancy] {
@@ -923,6 +939,8 @@ pub fn state_strategy() -> impl Strategy<Value = State> {
                 cycles: cycles % machine.frame_len() as u32,
                 ay,
                 mouse,
+                f_set: ram_seed & 0x400 != 0,
+                scf_first: ram_seed & 0x800 != 0,
             }
         })
 }
